@@ -28,6 +28,14 @@ pub struct Shared {
     pub write_fail_kind: Option<io::ErrorKind>,
     pub shutdown_seen: bool,
     pub reads: usize,
+    /// the peer has stopped reading: writes wait once `written` reaches this offset (None = the peer reads)
+    pub stall_at: Option<usize>,
+    /// a write is waiting for the peer to read again
+    pub wwaker: Option<Waker>,
+    /// a write has found the peer not reading since the stall began
+    pub blocked: bool,
+    /// called once per stall, at the moment the first write has to wait
+    pub on_block: Option<fn()>,
 }
 
 #[derive(Debug, Clone)]
@@ -60,6 +68,35 @@ impl MockIo {
         let mut s = self.0.lock().unwrap();
         s.write_fail_at = Some(off);
         s.write_fail_kind = Some(kind);
+        s.stall_at = None;
+        if let Some(w) = s.wwaker.take() {
+            w.wake();
+        }
+    }
+    /// The peer stops reading after `room` more bytes (a full socket buffer): writes beyond that wait.
+    pub fn stall_writes(&self, room: usize) {
+        let mut s = self.0.lock().unwrap();
+        s.stall_at = Some(s.written + room);
+        s.blocked = false;
+    }
+    /// The peer reads again.
+    pub fn resume_writes(&self) {
+        let mut s = self.0.lock().unwrap();
+        s.stall_at = None;
+        s.blocked = false;
+        if let Some(w) = s.wwaker.take() {
+            w.wake();
+        }
+    }
+    pub fn write_blocked(&self) -> bool {
+        self.0.lock().unwrap().blocked
+    }
+    /// Put back bytes the scripted server has taken but not consumed (an incomplete message).
+    pub fn unread_written(&self, rest: &[u8]) {
+        let mut s = self.0.lock().unwrap();
+        let mut v = rest.to_vec();
+        v.extend_from_slice(&s.from_client);
+        s.from_client = v;
     }
 }
 
@@ -101,10 +138,26 @@ impl AsyncRead for MockIo {
 }
 
 impl AsyncWrite for MockIo {
-    fn poll_write(self: Pin<&mut Self>, _: &mut Context<'_>, b: &[u8]) -> Poll<io::Result<usize>> {
+    fn poll_write(self: Pin<&mut Self>, cx: &mut Context<'_>, b: &[u8]) -> Poll<io::Result<usize>> {
         let mut s = self.0.lock().unwrap();
         if s.shutdown_seen {
             return Poll::Ready(Err(io::Error::new(io::ErrorKind::BrokenPipe, "write after shutdown")));
+        }
+        if let Some(at) = s.stall_at {
+            if s.written >= at {
+                s.wwaker = Some(cx.waker().clone());
+                if !s.blocked {
+                    s.blocked = true;
+                    if let Some(f) = s.on_block {
+                        f();
+                    }
+                }
+                return Poll::Pending;
+            }
+            let n = (at - s.written).min(b.len());
+            s.from_client.extend_from_slice(&b[..n]);
+            s.written += n;
+            return Poll::Ready(Ok(n));
         }
         if let Some(at) = s.write_fail_at {
             if s.written >= at {
